@@ -32,6 +32,10 @@ CHECKS = {
    technique="symbolic execution of the MIR of pest_vm (Vm::parse_rule/parse_expr/skip) and of the pest runtime on fully symbolic UTF-8 input for each grammar of an enumerated family, compared path by path (z3 deciding every branch) with the reference PEG semantics evaluated on the unoptimized rules",
    text="For each grammar text of the family (systematic operator/modifier/WHITESPACE/COMMENT/stack shapes plus seeded random expressions; 90 quick / 1200 thorough, default features and grammar-extras) the real front-end (parse, validate, optimize) runs natively; the optimized rules are loaded into the executor's heap as the Vm value and Vm::parse_rule is executed from MIR for start rules a and b on every valid UTF-8 input of 0..N bytes (N=4/5). On every path acceptance, consumed length, token tree with rule names and tags, and final stack are compared with the reference semantics (lib/pegsym.py) of the *unoptimized* rules; every path is replayed against the compiled pest_vm.",
    note="Trusted: MIR dump = compiled code; executor and summaries (validated per path natively on acceptance, tokens and tags); the reference semantics; z3. Grammars are enumerated, inputs bounded by N, Unicode property built-ins excluded (C16). Three known findings (lister rewrite, unroll trailing skip, tag on pairless expression) are matched by attributing the deviation to a pipeline stage on the witness input; anything not so attributable is a violation."),
+ "C05": dict(level="translation_validation", design="§5 C05", engine="M",
+   technique="translation validation of each optimizer pass's actual output: the real pass runs natively on each grammar of an enumerated family, then z3 decides, over fully symbolic UTF-8 input up to N bytes, the equivalence of the reference semantics of the rules before and after the pass (restore_on_err: after-side executed by the real VM from MIR)",
+   text="For every grammar of the family (shapes aimed at each rewrite and near-miss permutations of each rewrite pattern, all bounded repetitions, stack operations under choice/optional/repetition, plus the seeded C01 family; 600 quick / 1600 thorough) each of rotate, skip, unroll, concatenate, factor, list runs through the real code (cfg-guarded hook) alone and in its pipeline position; wherever a pass changed the rules, acceptance, consumed length, tokens and final stack of before/after are compared on every input class of 0..N bytes (N=3/5). restore_on_err is validated by running the real VM (MIR) on its output against the reference on its input. The whole pipeline against the VM is C01.",
+   note="What is executed symbolically is the semantics of the pass's input and output, not the pass (its input is a grammar, which cannot be made symbolic at useful size): a pass is only validated on the enumerated grammars. Trusted: reference semantics, z3, for restore_on_err the executor as in C01. Known findings: list rewrite, unroll trailing implicit skip."),
 }
 
 NOT_APPLICABLE = {
